@@ -501,8 +501,10 @@ class Visitor(
 
     @bypass(resolve_source)
     def visit_join(self, source: 'dsl.Join') -> None:
-        if source.condition is not None:
+        if source.condition is not None and source.kind is dsl.Join.Kind.INNER:
             self.context.tables.filter(source.condition)
+        elif source.condition is not None:  # outer join: the condition must not filter the preserved side
+            self.context.tables.select(source.condition)
         super().visit_join(source)
         right = self.context.symbols.pop()
         left = self.context.symbols.pop()
